@@ -35,7 +35,8 @@ func GetStringValue(rawString string) string {
 }
 
 func ByteSlice2String(bytes []byte) string {
-	return unsafe.String(&bytes[0], len(bytes))
+	// unsafe.SliceData, unlike &bytes[0], is defined for an empty slice
+	return unsafe.String(unsafe.SliceData(bytes), len(bytes))
 }
 
 func String2ByteSlice(str string) []byte {
